@@ -1,6 +1,6 @@
 """C17 — animation-set file: reader and writer are dual structures (8 groups x 32 bits, index map, label)."""
 from mir import fmt, walk, strip_refs, norm, callee_names
-from binser import for_loops, enclosing_loops, rpo_index, root_of, affine, fmt_affine
+from binser import for_loops, enclosing_loops, rpo_index, root_of, affine, fmt_affine, deep
 from flow import enum_paths, PathLimit, guards, control_deps, cond_truth
 
 EXPLANATION = ("Reader and writer of the animation-set file are compared structurally: same table label constant, "
@@ -71,6 +71,8 @@ def run(facts, rep, ctx):
                 wl = a[1]
     if rl is not None and rl == wl:
         rep.ok(R1, {"table_label": rl})
+    elif rl is None or wl is None:
+        rep.inconc(R1, "clip-table label constant not found (writer %r, reader %r)" % (wl, rl))
     else:
         rep.violation(R1, wr.name, "table-label", "writer labels the clip table %r, reader looks for %r" % (wl, rl), ww)
     # ---- loop bounds ---------------------------------------------------------------------------------
@@ -81,10 +83,21 @@ def run(facts, rep, ctx):
     takes = [tk for lp, lo, hi, tk in wloops if tk is not None]
     if rb == [8, 32, 32, 257]:
         rep.ok(R1, {"reader_loops": rb})
+    elif len(rb) != 4:
+        # e.g. the 32 absent slots produced by `resize` instead of a loop: a different shape, not a different bound
+        if set(rb) - {8, 32, 257}:
+            rep.violation(R1, rd.name, "reader-bounds", "reader loops run to %s (specified: 257 table entries, 8 groups, 32 bits)" % rb, rw)
+        else:
+            rep.inconc(R1, "reader loop structure not recognised: constant-range loops %s" % rb)
     else:
         rep.violation(R1, rd.name, "reader-bounds", "reader loops run to %s (specified: 257 table entries, 8 groups, 32 bits, 32 absent slots)" % rb, rw)
     if wb == [8, 32, 32] and takes == [8]:
         rep.ok(R1, {"writer_loops": wb, "take": takes})
+    elif len(wb) != 3 or len(takes) != 1:
+        if set(wb) - {8, 32} or set(takes) - {8}:
+            rep.violation(R1, wr.name, "writer-bounds", "writer loops run to %s, emission takes %s groups (specified: 8 x 32, 8)" % (wb, takes), ww)
+        else:
+            rep.inconc(R1, "writer loop structure not recognised: constant-range loops %s, take %s" % (wb, takes))
     else:
         rep.violation(R1, wr.name, "writer-bounds", "writer loops run to %s, emission takes %s groups (specified: 8 x 32, 8)" % (wb, takes), ww)
     # ---- index maps (writer) ----------------------------------------------------------------------------
@@ -118,6 +131,8 @@ def run(facts, rep, ctx):
             rep.ok(R1, {"slot_index": "32*group + bit + 1 (emission)"})
         else:
             rep.violation(R1, wr.name, "index-loops", "slot index uses loop counters with bounds other than (8, 32)", ww)
+    elif not bad_forms:
+        rep.inconc(R1, "writer slot index: %d expression(s) of the form 32*group + bit + 1 recognised (2 expected)" % len(good_forms))
     else:
         desc = [fmt_affine(f[4]) for f in bad_forms] or ["%d index expressions" % len(good_forms)]
         rep.violation(R1, wr.name, "index-map", "writer slot index is %s (specified: 32*group + bit + 1 in both the flag computation and the emission loop)" % desc, ww)
@@ -177,28 +192,45 @@ def run(facts, rep, ctx):
                     while z[0] in ("cast", "ref", "deref"):
                         z = z[1]
                     direct = "item:next" if (z[0] == "field" and z[1][0] == "downcast" and z[1][1][0] == "call" and z[1][1][1].endswith("::next")) else None
+                    if direct is None:
+                        # an affine function of a loop counter other than the counter itself is a different bit
+                        af = affine(z, None)
+                        if af and len(af[0]) == 1:
+                            (atom, coef), = af[0].items()
+                            a0 = atom
+                            while a0[0] in ("cast", "ref", "deref"):
+                                a0 = a0[1]
+                            if a0[0] == "field" and a0[1][0] == "downcast" and a0[1][1][0] == "call" and a0[1][1][1].endswith("::next") and (coef, af[1]) != (1, 0):
+                                direct = "wrong:%d*counter%+d" % (coef, af[1])
                 key.append((fmt(norm(src))[:40], direct, ct[1]))
         per_bit.setdefault(tuple(key), []).append((pushes_after, kinds))
     good = bool(per_bit)
     desc = []
+    unk = []
     for key, lst in per_bit.items():
         for n, kinds in lst:
             if n != 1:
                 good = False
                 desc.append("%s pushes %d slot(s) per iteration" % (key, n))
+            if key and key[-1][1] is None:
+                unk.append("bit test is not `flags & (1 << counter)`")
+                continue
+            if key and str(key[-1][1]).startswith("wrong:"):
+                good = False
+                desc.append("bit test shifts by %s instead of the loop counter" % key[-1][1][6:])
+                continue
             if key and key[-1][2] is True and kinds != ["string"]:
                 good = False
                 desc.append("bit set but pushes %s" % kinds)
             if key and key[-1][2] is False and kinds != ["none"]:
                 good = False
                 desc.append("bit clear but pushes %s" % kinds)
-            if key and key[-1][1] is None:
-                good = False
-                desc.append("bit test is not `flags & (1 << counter)`")
-    if good and len(per_bit) >= 3:
+    if desc:
+        rep.violation(R1, rd.name, "one-slot-per-bit", "reader slot accounting: %s" % desc, rw)
+    elif good and len(per_bit) >= 3 and not unk:
         rep.ok(R1, {"reader": "exactly one slot per bit: string if set, absent if clear, 32 absent for a missing group", "branches": len(per_bit)})
     else:
-        rep.violation(R1, rd.name, "one-slot-per-bit", "reader slot accounting: %s" % (desc or "branches not recognised (%d)" % len(per_bit)), rw)
+        rep.inconc(R1, "reader slot accounting: %s" % (unk[0] if unk else "branches not recognised (%d)" % len(per_bit)))
     # main-bit test uses the group counter, bit test the bit counter
     cnt_ok = 0
     for key in per_bit:
@@ -208,7 +240,7 @@ def run(facts, rep, ctx):
     if cnt_ok >= 3:
         rep.ok(R1, {"reader_bit_tests": "flags & (1 << loop counter)"})
     else:
-        rep.violation(R1, rd.name, "bit-test", "reader bit tests do not shift by the loop counters", rw)
+        rep.inconc(R1, "reader bit tests of the form `flags & (1 << loop counter)` not recognised")
     # label first, then main flags
     first = None
     for p in rpaths:
@@ -219,6 +251,8 @@ def run(facts, rep, ctx):
                 first = evs[i:i + 2]
     if first == ["read_label", "read_u32"]:
         rep.ok(R1, {"reader_set_header": "label at the cursor, then the main flags"})
+    elif first is None:
+        rep.inconc(R1, "reader: the label read that starts a set was not found")
     else:
         rep.violation(R1, rd.name, "set-header", "a set starts with %s (specified: label, main flags)" % first, rw)
     # ---- every set in the data is read: the set loop is left only by its own condition or by an error -------
@@ -277,10 +311,21 @@ def run(facts, rep, ctx):
                 counters[l] = bi
     grp = [l for l, (bi, sh) in accs.items() if loop_bound_of(wnv, sh, wloops) == 32]
     mains = [l for l, (bi, sh) in accs.items() if loop_bound_of(wnv, sh, wloops) == 8]
+    wrong_shift = []
+    for l, (bi, sh) in accs.items():
+        if sh[0] != "local":
+            af = affine(sh, wnv, expand=False)
+            if af and len(af[0]) == 1:
+                (atom, coef), = af[0].items()
+                if loop_bound_of(wnv, atom, wloops) in (8, 32) and (coef, af[1]) != (1, 0):
+                    wrong_shift.append("%s |= 1 << (%s)" % (wnv.local_name(l), fmt_affine(af)))
+    if wrong_shift:
+        rep.violation(R1, wr.name, "bit-set", "writer sets %s: the reader tests bit `counter` (specified group |= 1 << bit, main |= 1 << group)" % wrong_shift[0], ww)
+        return
     if len(grp) == 1 and len(mains) == 1:
         rep.ok(R1, {"writer_bit_sets": "group |= 1 << bit ; main |= 1 << group"})
     else:
-        rep.violation(R1, wr.name, "bit-set", "writer flag accumulation not of the form group |= 1 << bit (32), main |= 1 << group (8): %s" % {wnv.local_name(l): fmt(sh) for l, (bi, sh) in accs.items()}, ww)
+        rep.inconc(R1, "writer flag accumulation of the form group |= 1 << bit (32), main |= 1 << group (8) not recognised: %s" % {wnv.local_name(l): fmt(sh)[:40] for l, (bi, sh) in accs.items()})
         return
     g_l, m_l = grp[0], mains[0]
     # main bit set under `group_flags != 0`, and one counter incremented under the same guard
@@ -292,8 +337,11 @@ def run(facts, rep, ctx):
                 out.append(ct)
         return out
     mg = guard_terms(accs[m_l][0])
-    main_guard_ok = any(t[0] == "bin" and t[1] == "Ne" and t[2] == ("local", g_l, wnv.local_name(g_l)) and t[3][0] == "const" and t[3][1] == 0 and truth for t, truth in mg)
-    flag_counter = [l for l, bi in counters.items() if any(t[0] == "bin" and t[1] == "Ne" and t[2] == ("local", g_l, wnv.local_name(g_l)) and truth for t, truth in guard_terms(bi))]
+    def nonzero(t, truth, who):
+        return t[0] == "bin" and t[2] == who and t[3][0] == "const" and t[3][1] == 0 and ((t[1] == "Ne" and truth) or (t[1] == "Eq" and not truth))
+    G_L = ("local", g_l, wnv.local_name(g_l))
+    main_guard_ok = any(nonzero(t, truth, G_L) for t, truth in mg)
+    flag_counter = [l for l, bi in counters.items() if any(nonzero(t, truth, G_L) for t, truth in guard_terms(bi))]
     gg = guard_terms(accs[g_l][0])
     present_guard = [t for t, truth in gg if truth and t[0] == "local"]
     str_counter = [l for l, bi in counters.items() if bi == accs[g_l][0] or any(t in present_guard for t, truth in guard_terms(bi) if truth)]
@@ -305,24 +353,40 @@ def run(facts, rep, ctx):
     # emission: write_u32(*flag) and the string loop guarded by *flag != 0 ; string write guarded by the slot being Some
     em_ok = False
     str_ok = False
+    em_seen = False
+    str_seen = False
     for bb, t in wnv.calls():
         nm = callee_names(t)[1] or ""
         if nm.endswith("BinArchiveWriter::<'a>::write_u32") and enclosing_loops(for_loops(wnv), bb):
             v = wnv.term_of_operand(t["args"][1])
             gts = guard_terms(bb)
-            if any(tt[0] == "bin" and tt[1] == "Ne" and norm(tt[2]) == norm(v) and tt[3][0] == "const" and tt[3][1] == 0 and truth for tt, truth in gts):
+            em_seen = True
+            if any(tt[0] == "bin" and norm(tt[2]) == norm(v) and tt[3][0] == "const" and tt[3][1] == 0 and ((tt[1] == "Ne" and truth) or (tt[1] == "Eq" and not truth)) for tt, truth in gts):
                 em_ok = True
         if nm.endswith("BinArchiveWriter::<'a>::write_string") and len(enclosing_loops(for_loops(wnv), bb)) >= 3:
+            str_seen = True
+            # `for name in slots.iter().flatten()`: only present slots are visited at all
+            for lp in enclosing_loops(for_loops(wnv), bb):
+                src = deep(wnv, lp.get("src")) if lp.get("src") else None
+                if src and any(x[0] == "call" and x[1].endswith("Iterator::flatten") for x in walk(src)):
+                    v = wnv.term_of_operand(t["args"][1])
+                    if any(x[0] == "call" and x[1].endswith("::next") and len(x) > 3 and x[3] == lp.get("next_bb") for x in walk(v)) or any(
+                            x[0] == "local" and x[1] in loop_item_local(wnv, lp) for x in walk(v)):
+                        str_ok = True
             for (a, s, c) in guards(wnv, bb, cd):
                 term, vals, neg, dty = c
                 if term[0] == "discr" and any(x[0] == "call" and x[1].endswith("<impl [T]>::get") for x in walk(term)) and ((vals == (1,)) != neg):
                     str_ok = True
     if em_ok:
         rep.ok(R1, {"coupling": "group word emitted iff non-zero"})
+    elif not em_seen:
+        rep.inconc(R1, "writer: emission of the group words not recognised")
     else:
         rep.violation(R1, wr.name, "emit-coupling", "the group word is not emitted under `flags != 0` of the same word", ww)
     if str_ok:
         rep.ok(R1, {"coupling": "string emitted iff the slot is present"})
+    elif not str_seen:
+        rep.inconc(R1, "writer: emission of the slot strings not recognised")
     else:
         rep.violation(R1, wr.name, "string-coupling", "a slot's string is not emitted under `slot is Some`", ww)
     # presence predicate in the flag computation derives from the same slot lookup
@@ -338,8 +402,10 @@ def run(facts, rep, ctx):
                         pres_ok = True
     if pres_ok:
         rep.ok(R1, {"coupling": "bit set iff set.get(index) is Some(Some(_))"})
+    elif not present_guard:
+        rep.violation(R1, wr.name, "presence", "the group bit is set unconditionally (specified: only when the slot holds a name)", ww)
     else:
-        rep.violation(R1, wr.name, "presence", "the group bit is not set under `set.get(index).map(is_some)`", ww)
+        rep.inconc(R1, "writer: the presence test guarding the group bit is not of the form `set.get(index)` is Some(Some(_))")
     # ---- R17.2 space ---------------------------------------------------------------------------------------
     allocs = []
     for bb, t in wnv.calls():
@@ -349,16 +415,40 @@ def run(facts, rep, ctx):
     hdr = [a for bb, a, inl in allocs if not inl and a and not a[0]]
     tab = [a for bb, a, inl in allocs if not inl and a and a[0]]
     per = [a for bb, a, inl in allocs if inl]
-    if hdr and hdr[0][1] == 12:
+    flat = [a for bb, a, inl in allocs if not inl]
+    if hdr and hdr[0][1] == 12 and tab and list(tab[0][0].values()) == [4] and tab[0][1] == 0:
         rep.ok(R2, {"header_bytes": 12})
-    else:
-        rep.violation(R2, wr.name, "header-alloc", "header allocation is %s (specified 12)" % [fmt_affine(a) for a in hdr], ww)
-    if tab and list(tab[0][0].values()) == [4] and tab[0][1] == 0:
         rep.ok(R2, {"clip_table": "4 bytes per entry"})
+    elif flat and all(a is not None for a in flat):
+        # total outside the set loop = 12 + 4 * entries, however it is split over calls
+        tot_c = sum(a[1] for a in flat)
+        tot = {}
+        for a in flat:
+            for k, v in a[0].items():
+                tot[k] = tot.get(k, 0) + v
+        # an atom may be a named local holding 4 * len: expand one level
+        exp = {}
+        for k, v in tot.items():
+            sub = affine(wnv.definition(k[1]), wnv, expand=False) if (k[0] == "local" and len(wnv.defs().get(k[1], [])) == 1) else None
+            if sub is not None:
+                tot_c += v * sub[1]
+                for k2, v2 in sub[0].items():
+                    exp[k2] = exp.get(k2, 0) + v * v2
+            else:
+                exp[k] = exp.get(k, 0) + v
+        if tot_c == 12 and list(exp.values()) == [4]:
+            rep.ok(R2, {"header_bytes": 12})
+            rep.ok(R2, {"clip_table": "4 bytes per entry"})
+        elif len(exp) == 1:
+            rep.violation(R2, wr.name, "header-alloc", "space allocated before the sets is %d + %s (specified 12 + 4 x entries)" % (tot_c, fmt_affine((exp, 0))), ww)
+        else:
+            rep.inconc(R2, "allocation before the sets not recognised: %s" % [fmt_affine(a) for a in flat])
     else:
-        rep.violation(R2, wr.name, "table-alloc", "clip table allocation is %s (specified 4 x len)" % [fmt_affine(a) for a in tab], ww)
+        rep.inconc(R2, "allocation before the sets not recognised")
     want = {("local", l, wnv.local_name(l)): 4 for l in (flag_counter + str_counter)}
     if len(per) == 1 and per[0] is not None and per[0][0] == want and per[0][1] == 4 and len(want) == 2:
         rep.ok(R2, {"per_set": fmt_affine(per[0])})
+    elif len(per) != 1 or per[0] is None or len(want) != 2 or set(per[0][0]) != set(want):
+        rep.inconc(R2, "per-set allocation not recognised: %s" % [fmt_affine(a) if a else None for a in per])
     else:
         rep.violation(R2, wr.name, "set-alloc", "per-set allocation is %s (specified 4 x (1 + group words + strings))" % [fmt_affine(a) for a in per], ww)
